@@ -3,6 +3,7 @@ import IcyVerif.Drv.Bgi
 import IcyVerif.Drv.Igs
 import IcyVerif.Drv.Ripc
 import IcyVerif.Drv.Igsx
+import IcyVerif.Drv.Ript
 open IcyVerif.Drv
 
 def dispatch (line : String) : String :=
@@ -12,6 +13,7 @@ def dispatch (line : String) : String :=
   | "igs" :: rest => Igs.handle rest
   | "ripc" :: rest => Ripc.handle rest
   | "igsx" :: rest => Igsx.handle rest
+  | "ript" :: rest => Ript.handle rest
   | _ => "bad-op"
 
 partial def loop (h : IO.FS.Stream) (out : IO.FS.Stream) : IO Unit := do
